@@ -620,7 +620,7 @@ def guards(inst, st):
     rest = (all(m.state == _MS.IDLE and len(m.buffer.store) == 0 for m in st.machines)
             and all(o.operation_state_state == _OS.IDLE for j in st.jobs for o in j.operations)
             and all(t.state == _TS.IDLE and t.transport_job is None and not isinstance(t.occupied_till, _TD)
-                    for t in st.transports))
+                    and len(t.buffer.store) == 0 for t in st.transports))
 
     def nn(t):
         return not isinstance(t, DeterministicTimeConfig) or t.time >= 0
